@@ -329,6 +329,10 @@ class Ctx:
 
 
 def _has_own(x, name):
+    """the attribute was set on the INSTANCE (class-level defaults are not instance state)"""
+    d = getattr(x, '__dict__', None)
+    if d is not None:
+        return name in d
     try:
         object.__getattribute__(x, name)
         return True
